@@ -64,6 +64,18 @@ CHECKS = {
                      "replayed on the real tree; seeded sequences on the real tree (fan-out 2, 4, ~400, with reopen) are judged step by "
                      "step by BTreeTrace.tla.",
                 note="known findings KF-09/KF-10 (equal keys)"),
+    "C03": dict(ref="5 C03", tech="TLA+ trace validation (SchedTrace.TSnap) of executions under forced schedules (schedule-point hooks)",
+                text="One writer operation (commit, compaction, index creation) runs against one reader assembling a snapshot; the controller "
+                     "forces every interleaving of their schedule points (between the publication steps and between the snapshot's field "
+                     "reads); TLC requires the dump through the snapshot to equal the quiescent dump before or after the operation as a "
+                     "whole, and the same snapshot read again after the writer finished (also across several compactions) to be unchanged.",
+                note="known findings KF-17 (non-atomic assembly, only when reads overlap publication) and KF-18 (in-place property sinking)"),
+    "C09": dict(ref="5 C09", tech="TLC model checking of AutoCommit.tla + its behaviours replayed into ndb_execute_write under schedule-point hooks, judged by SchedTrace.TIncr",
+                text="AutoCommit.tla models the auto-commit entry point (snapshot, writer lock, execute+commit) with the order of the first two "
+                     "steps as a constant: TLC proves NoLostUpdate and termination for lock-first with 3 threads and finds the lost update for "
+                     "snapshot-first; every behaviour of the 2-thread model is forced on the real ndb_execute_write for counter increments "
+                     "and a conditional create, and TLC checks final value = initial + successful statements.",
+                note="the order observed in the code is recorded in the evidence"),
     "C11": dict(ref="5 C11", tech="TLA+ reference evaluator (CypherSem.tla) evaluated by TLC on recorded executions (trace validation, CypherTrace)",
                 text="CypherSem.tla is an independent reference evaluator of the read fragment (pattern matching with relationship "
                      "uniqueness over the relationship bag, OPTIONAL MATCH, WHERE in three-valued logic, WITH, UNWIND, DISTINCT, "
@@ -107,7 +119,7 @@ CHECKS = {
 }
 
 # properties whose check has been run green on the unchanged tree
-ENABLED = ["C01", "C02", "C04", "C05", "C06", "C07", "C08", "C11", "C12", "C15", "C17", "C19", "C20", "C21", "C22", "C23", "C26", "C27", "C28", "C33"]
+ENABLED = ["C01", "C02", "C03", "C04", "C05", "C06", "C07", "C08", "C09", "C11", "C12", "C15", "C17", "C19", "C20", "C21", "C22", "C23", "C26", "C27", "C28", "C33"]
 
 NOT_APPLICABLE = {
     "C16": "quantifies over arbitrary byte strings and resource exhaustion; no state machine to specify, a fuzzer's job (DESIGN.md 6)",
@@ -122,6 +134,7 @@ def main():
     sys.path.insert(0, os.path.join(VERIF, "lib"))
     import checks
     import cychecks  # noqa: F401
+    import conchecks  # noqa: F401
     checks_out = []
     na = []
     for p in props:
